@@ -6,6 +6,7 @@ import Bmc.Proofs.EndToEnd.SessionC11
 import Bmc.Proofs.EndToEnd.SessionlessC11
 import Bmc.Proofs.EndToEnd.HistoryC11
 import Bmc.Proofs.EndToEnd.WholeC04
+import Bmc.Proofs.EndToEnd.SessionlessHistory
 #print axioms Bmc.Proofs.C11.session_result_matches_request
 #print axioms Bmc.Proofs.C11.stray_is_retry
 #print axioms Bmc.Proofs.C11.sessionless_result_matches_request
@@ -27,3 +28,7 @@ import Bmc.Proofs.EndToEnd.WholeC04
 #print axioms Bmc.Proofs.EndToEnd.generated_history_results
 #print axioms Bmc.Proofs.EndToEnd.generated_session_then_history_results
 #print axioms Bmc.Proofs.EndToEnd.integ_ne_zero_of_negotiated
+#print axioms Bmc.Proofs.EndToEnd.generated_sessionless_history
+#print axioms Bmc.Proofs.EndToEnd.generated_sessionless_history_ignores_connection
+#print axioms Bmc.Proofs.EndToEnd.generated_sessionless_history_null
+#print axioms Bmc.Proofs.EndToEnd.generated_sessionless_history_results
